@@ -3,10 +3,14 @@
     safety P1/P2/P4 and liveness P3/CloseReturns under fairness; the rfc8888 profile (hand-off send that does not select
     on close, streams never dropped) is kept as a negative control.
 (G) Gen_Lifecycle: every sequence of L lifecycle/traffic calls, executed on a fresh instance of EVERY interceptor and on
-    three chains, each call under a watchdog. (T) Trace_Lifecycle validates the recorded traces."""
+    three chains, each call under a watchdog. (T) Trace_Lifecycle validates the recorded traces.
+(P5) checks/c11_rebind.py: re-bind freshness and release of per-stream state as a two-run relation (Rebind.tla, MC_Rebind,
+    Gen_Rebind, Trace_Rebind): every stateful interceptor runs `Bind; H; Unbind; Bind; B` and, on a fresh instance, `Bind; B`;
+    TLC pairs the recorded observations of the suffix and compares them."""
 import random
 
 import c10
+import c11_rebind
 import growth_pli_dump
 import vlib
 
@@ -17,19 +21,32 @@ META = {
             "P3 (every call returns, liveness under fairness) and P4 (at most one emission about an unbound SSRC); TLC "
             "enumerates every sequence of 3-4 lifecycle/traffic calls over 12 call kinds, which is executed on fresh "
             "instances of all 19 interceptor kinds and three chains with a per-call watchdog, a goroutine census after "
-            "Close and transport-side recording; traces are validated by TLC.",
+            "Close and transport-side recording; traces are validated by TLC. P5 (fresh state after re-bind, state released by "
+            "Unbind) is a two-run relation: Rebind.tla (per-stream state vs. per-instance state, both runs in lock step) is model "
+            "checked with negative controls (an Unbind that keeps one field; comparing per-instance counters); TLC enumerates "
+            "(interceptor kind x first life H x suffix B x knobs: number base at the 2^16 wrap, another stream staying bound, "
+            "StreamInfo variant of the second bind) for 13 stateful kinds; each script is executed on the real interceptor as "
+            "`Bind;H;Unbind;Bind;B` and on a fresh instance as `Bind;B` with a controlled clock and stepped tick loops, and TLC "
+            "pairs and compares the observations of every suffix step (results, feedback/reports/retransmissions/FEC about the "
+            "stream, statistics, report attributes) modulo the per-instance quantities listed in Rebind.tla.",
     "note": "Trusted: watchdog of 4 s per call as the meaning of 'blocks indefinitely' (a blocked call is confirmed by its "
             "goroutine stack in the replay); goroutine census by stack frames of the library; feedback members run with "
-            "1 ms tickers. 'State released / fresh state after rebind' is covered only through P4 and the census here "
-            "(functional freshness is part of C03/C04 rebinding scripts); collectability is C12.",
+            "1 ms tickers. P5 stage: the harness's observation recorder and step synchronisation (verif tick gates, injected "
+            "clock/tickers, resend done gate; a script that cannot be ordered within 3 s is inconclusive); rtpfb, the TWCC sender "
+            "and cc read time.Now and are compared on time-free observations only (TWCC sender in aggregate on its real ticker; "
+            "cc: only which transport-side writer a packet reaches); the jitter-buffer interceptor is exercised with one stream "
+            "(one buffer per instance); first life and suffix are 2+2 steps in the quick tier (3+3 thorough), plus 50-packet "
+            "bursts for the jitter buffer. Collectability (weak pointers) is C12.",
     "technique": "TLA+ lifecycle automaton model checked with TLC (safety + liveness); TLC-generated call sequences executed "
-                 "on every interceptor; recorded traces validated by TLC",
+                 "on every interceptor; recorded traces validated by TLC; two-run relational conformance (re-bound vs. fresh "
+                 "instance) with TLC as generator and comparator",
     "design_ref": "DESIGN.md section 7 C11",
 }
 
 RULE = ("script = (single interceptor kind or chain) x sequence of L calls from {BindRTCPWriter, BindRTCPReader, BindLocalStream, "
         "BindRemoteStream, RTP write, RTP read, RTCP write, RTCP read, wait, UnbindLocal, UnbindRemote, Close}, TLC-enumerated, with a "
-        "standard prefix/suffix variant; distinct_nontrivial = distinct recorded traces in which Close or an Unbind was followed by further calls or ticks.")
+        "standard prefix/suffix variant; distinct_nontrivial = distinct recorded traces in which Close or an Unbind was followed by further calls or ticks; "
+        + c11_rebind.RULE_PART + ".")
 
 KINDS = ["noop", "nackgen", "nackresp", "rrecv", "rsend", "twccsend", "twcchdr", "rfc8888", "rtpfb", "stats", "pdrecv", "pdsend",
          "pli", "flexfec", "cc", "ccleaky", "jitter", "pacing"]
@@ -153,6 +170,8 @@ def run(ctx):
                        files=["zz_verif_univ_test.go", "common:zz_verif_pkt_test.go.tpl"], test="TestVerifUnivExec",
                        trace_module="Trace_Conc.tla", nontrivial=lambda evs: True, race=False, go_timeout=2400,
                        culprit_hint=vlib.univ_culprit_hint)
+    # P5: re-bind freshness / release of per-stream state, two-run relation (part of the property: divergences are verdicts)
+    c11_rebind.run_stage(ctx)
     # specification growth: functional specifications of intervalpli and packetdump (behaviour no listed property states;
     # divergences are NOTE lines, never a verdict)
     notes = growth_pli_dump.run_growth(ctx)
@@ -163,5 +182,9 @@ def run(ctx):
 
 
 def replay(ctx, path):
-    run_batch(ctx, vlib.replay_scripts(path), "replay")
+    scripts = vlib.replay_scripts(path)
+    if c11_rebind.is_rebind_replay(scripts):
+        c11_rebind.run_batch(ctx, scripts, "replay")
+    else:
+        run_batch(ctx, scripts, "replay")
     return vlib.finish(ctx, "model_checking", RULE)
